@@ -29,7 +29,7 @@ Print Assumptions C02_readPtr_accounting.
 (* any op list (any arguments, in or out of domain) on any message (no well-formedness
    needed): the budget is never negative, never increases, and the total read size handed
    out is at most the limit *)
-Theorem C02_traversal_bound_seq : forall c fx m ops, 0 <= cfg_T c ->
+Theorem C02_traversal_bound_seq : forall c fx m ops, 0 <= cfg_T c -> no_reset ops = true ->
   let st := fst (run c fx m (init_state c) ops) in
   let vs := run_ops c fx m ops in
   0 <= rs_rl st /\
@@ -39,9 +39,40 @@ Theorem C02_traversal_bound_seq : forall c fx m ops, 0 <= cfg_T c ->
 Proof. exact traversal_bound_seq. Qed.
 Print Assumptions C02_traversal_bound_seq.
 
+(* reused messages (Message.Reset, Decoder.ReuseBuffer): [OReset true] empties the handle pool and
+   re-arms the budget as Message.initReadLimit does.  For EVERY op list, resets included, and
+   every incarnation [inc] (the ops between one reset and the next): the budget right after the
+   reset is init_rlimit c (the configured T, or the 64 MiB default when T = 0), no handle
+   survives, and the read sizes handed out within the incarnation sum to at most that value.
+   (The first incarnation is C02_traversal_bound_seq, stated for reset-free op lists.) *)
+Theorem C02_traversal_bound_incarnations : forall c fx m pre inc post, 0 <= cfg_T c -> no_reset inc = true ->
+  let st0 := fst (run c fx m (init_state c) (pre ++ [OReset true])) in
+  let r := run c fx m st0 inc in
+  rs_rl st0 = init_rlimit c /\ rs_handles st0 = [] /\
+  0 <= rs_rl (fst r) /\
+  handed_sum inc (snd r) <= init_rlimit c - rs_rl (fst r) /\
+  handed_sum inc (snd r) <= init_rlimit c /\
+  run_ops c fx m (pre ++ OReset true :: inc ++ post) =
+    snd (run c fx m (init_state c) pre) ++ VNum (Ok (init_rlimit c)) :: snd r ++ snd (run c fx m (fst r) post).
+Proof. exact traversal_bound_incarnations. Qed.
+Print Assumptions C02_traversal_bound_incarnations.
+
+(* sensitivity: the variant that re-arms with the default whatever was configured ([OReset
+   false], the seeded change C02-r4-1) hands out 16 bytes in an incarnation with T = 8 *)
+Example C02_reset_default_refuted :
+  let c := mkCfg 8 0 true true in
+  let fx := mkFix true true true in
+  let m := [[0;0;0;0;0;0;1;0;  0;0;0;0;0;0;0;0]] in
+  msg_ok m /\
+  map obs_code (run_ops c fx m [ORoot; OReset true; ORoot; ORoot]) = [1; 8; 1; 2] /\
+  handed_sum [ORoot; ORoot] (skipn 2 (run_ops c fx m [ORoot; OReset true; ORoot; ORoot])) = 8 /\
+  map obs_code (run_ops c fx m [ORoot; OReset false; ORoot; ORoot]) = [1; 67108864; 1; 1] /\
+  handed_sum [ORoot; ORoot] (skipn 2 (run_ops c fx m [ORoot; OReset false; ORoot; ORoot])) = 16.
+Proof. exact reset_default_refuted. Qed.
+
 (* each single API call (other than a walk): budget + handed-out size is conserved exactly,
    or the call is a refused dereference: an error, and the budget is 0 afterwards *)
-Theorem C02_step_exact : forall c fx m st o, (forall h dcap pcap fuel, o <> OWalk h dcap pcap fuel) ->
+Theorem C02_step_exact : forall c fx m st o, (forall h dcap pcap fuel, o <> OWalk h dcap pcap fuel) -> is_reset o = false ->
   rs_rl (fst (step c fx m st o)) + handed o (snd (step c fx m st o)) = rs_rl st \/
   (rs_rl (fst (step c fx m st o)) = 0 /\ snd (step c fx m st o) = VPtr Err).
 Proof. exact step_exact. Qed.
